@@ -133,3 +133,57 @@ CONTRACTS.update({
         split=[{"assume": "n1[0] == %r" % a} for a in "CDEFGAB"],
         properties=["C03"], battery="canon_pairs"),
 })
+
+
+# ------------------------------------------------------------------ C06
+from mingus.core import chords  # noqa: E402
+from contracts.specfuns import SHORTHAND_STEPS  # noqa: E402
+
+
+def c06_shorthand_builds_formula(sh, root):
+    return chords.chord_shorthand[sh](root)
+
+
+def c06_tables():
+    return (sorted(chords.chord_shorthand.keys()), sorted(chords.chord_shorthand_meaning.keys()))
+
+
+def c06_same_meaning_same_chord(sh1, sh2, root):
+    return (chords.chord_shorthand_meaning[sh1] == chords.chord_shorthand_meaning[sh2],
+            chords.chord_shorthand[sh1](root), chords.chord_shorthand[sh2](root))
+
+
+_SHS = sorted(SHORTHAND_STEPS)
+_BY_LEN = {}
+for _k in _SHS:
+    _BY_LEN.setdefault(len(SHORTHAND_STEPS[_k]), []).append(_k)
+
+CONTRACTS.update({
+    L + "c06_shorthand_builds_formula": dict(
+        params={"sh": "str", "root": "str"},
+        requires="is_name(root) and sh in known_chord_shorthands()",
+        returns="list[str]",
+        ensures=[("chord-is-its-formula-on-this-root", "chord_matches(result, root, chord_steps(sh))")],
+        split=[{"bind": {"sh": k}} for k in _SHS],
+        properties=["C06"], battery="shorthand_root"),
+    L + "c06_tables": dict(
+        params={}, returns="(list[str],list[str])",
+        ensures=[("constructible-equals-documented", "list_same(result[0], result[1])"),
+                 ("and-equals-the-spec-vocabulary", "list_same(result[0], known_chord_shorthands())")],
+        properties=["C06"], battery="unit"),
+})
+
+# shorthands with the same documented meaning build the same chord: one lemma instance per pair of keys
+_PAIRS = [(a, b) for a in _SHS for b in _SHS if a < b and len(SHORTHAND_STEPS[a]) == len(SHORTHAND_STEPS[b])]
+CONTRACTS[L + "c06_same_meaning_same_chord"] = dict(
+    params={"sh1": "str", "sh2": "str", "root": "str"},
+    requires="is_name(root) and sh1 in known_chord_shorthands() and sh2 in known_chord_shorthands()",
+    returns="(bool,list[str],list[str])",
+    ensures=[("same-meaning-same-letters-and-pitches",
+              "(not result[0]) or (len(result[1]) == len(result[2]) and all([result[1][i][0] == result[2][i][0] and "
+              "pc(result[1][i]) == pc(result[2][i]) for i in range(len(result[1]))]))")],
+    split=[{"bind": {"sh1": a, "sh2": b}} for a, b in _PAIRS],
+    split_is_domain=True,
+    notes="the lemma's domain is the enumerated set of key pairs (no completeness obligation); pairs with different chord sizes cannot have the same meaning unless the tables are wrong; those are "
+          "covered by c06_shorthand_builds_formula (each key against the spec formula)",
+    properties=["C06"], battery="shorthand_pairs_root")
